@@ -87,6 +87,7 @@ def run(tier, seed, broken_proof=False):
     rng = random.Random(seed + 1212)
     count = 70 if tier == "quick" else 500
     violations = []
+    corr = []
     strata = Counter()
     evals = 0
     nontriv = set()
@@ -114,19 +115,31 @@ def run(tier, seed, broken_proof=False):
             for cfg in cfgs:
                 name = ops.cfg_name(cfg)
                 got = ires[vc["id"]][name]
-                if cfg[0] == "c-inference":
-                    exp = ires[c["id"]][name]
-                else:
-                    exp = [row[cfg[0]] for row in mres[c["id"]]["model"]]
+                exp = ires[c["id"]][name]            # the implementation's own answers on the original presentation
                 evals += len(c["queries"])
                 if got != exp:
-                    bad = [i for i in range(len(exp))] if not isinstance(got, list) else [i for i, (g, e) in enumerate(zip(got, exp)) if g != e]
+                    bad = [i for i in range(len(c["queries"]))] if not (isinstance(got, list) and isinstance(exp, list)) else [i for i, (g, e) in enumerate(zip(got, exp)) if g != e]
                     qi = bad[0] if bad else 0
                     small = dict(vc, queries=[vc["queries"][qi]])
                     violations.append({"kind": "presentation", "variant": tag, "config": name, "weakly": weakly, "case": small, "readable": opsprop.describe(small),
-                                       "original": opsprop.describe(dict(c, queries=[c["queries"][qi]])), "expected": exp if not isinstance(got, list) else exp[qi],
+                                       "original": opsprop.describe(dict(c, queries=[c["queries"][qi]])), "expected": exp if not isinstance(exp, list) else exp[qi],
                                        "actual": got if not isinstance(got, list) else got[qi], "found_by": "generated",
                                        "theorem_or_observable": "answer of %s changes under re-presentation '%s'" % (name, tag)})
+        # model = code on the original presentations (the invariance theorems reach the code only through this agreement)
+        for c in origs:
+            for cfg in cfgs:
+                if cfg[0] == "c-inference":
+                    continue
+                name = ops.cfg_name(cfg)
+                mexp = [row[cfg[0]] for row in mres[c["id"]]["model"]]
+                got0 = ires[c["id"]][name]
+                if got0 != mexp:
+                    bad = [i for i, (g, e) in enumerate(zip(got0, mexp)) if g != e] if isinstance(got0, list) else [0]
+                    qi = bad[0] if bad else 0
+                    small = dict(c, queries=[c["queries"][qi]])
+                    corr.append({"kind": "correspondence", "config": name, "weakly": weakly, "case": small, "readable": opsprop.describe(small),
+                                 "model_answer": mexp[qi] if mexp else None, "actual": got0 if not isinstance(got0, list) else got0[qi], "found_by": "none",
+                                 "theorem_or_observable": "model answer != implementation answer on an original presentation (C12's invariance theorems transfer to the code only through this agreement)"})
         for c in origs:
             for qi, q in enumerate(c["queries"]):
                 if opsprop.query_nontrivial(c, q):
@@ -134,6 +147,8 @@ def run(tier, seed, broken_proof=False):
         if origs:
             c = origs[len(origs) // 2]
             samples.append({"original": opsprop.describe(c), "variants": [{t: opsprop.describe(v)["base"]} for t, v in variants(random.Random(1), c)[:4]]})
+    if not [v for v in violations if v.get("found_by") != "none"]:
+        violations += corr[:4]
     # de-duplicate violations by (variant, config)
     seen = set()
     uniq = []
